@@ -111,6 +111,19 @@ fn props() -> Vec<PropDef> {
             "stdout is observed through the same PrintTarget::write path as the other targets (child-process capture is exercised by the stdout probe only)",
             "whether solve() may panic on a hard sink error is not stated by any property and is only counted",
         ],
+    },
+    PropDef {
+        id: "C08",
+        num: 8,
+        level: "exploration",
+        run: props::c08::run,
+        quick_runs: 30_000,
+        thorough_runs: 1_000_000,
+        rule: "one case = (generated problem, settings, history of 2-12 operations: update_P/q/A/b/update_data in every argument form, valid or invalid (wrong length, out-of-range index after valid ones, pattern mismatch, presolve active), and solves cut by max_iter or the simulated clock); non-trivial = a solve follows an accepted non-empty update, or an update was rejected; distinct = distinct hash of the run's event-shape sequence",
+        assumptions: &[
+            "with equilibration on, bitwise equality with a fresh solver is not implied; verdict class and the weak-duality objective slack are compared when both statuses are definite",
+            "for a rejected indexed update both 'untouched' and 'prefix before the bad index applied' are accepted, as the property leaves this open",
+        ],
     }]
 }
 
